@@ -4,7 +4,7 @@
    compress.NewCompressReader with its switch labels regenerated into Gen/CompressLabels.v).
    The codecs are universally quantified functions with the single hypothesis
    `dec e (compress e p) = (p, EOF)`. *)
-From ReqV Require Import Lib.Bytes Gen.CompressLabels Model.Decode Model.DecodeSession
+From ReqV Require Import Lib.Bytes Gen.CompressLabels Gen.CompressReaders Model.Decode Model.DecodeSession
   Proofs.DecodeProofs Proofs.DecodeSessionProofs.
 
 (* the transport asks for gzip exactly when compression is not disabled, the caller set neither
@@ -119,6 +119,20 @@ Theorem C14_sticky_after_drain : forall dec sizes r b e r',
 Proof. exact drain_sticky. Qed.
 Print Assumptions C14_sticky_after_drain.
 
+(* what goes on the wire: "gzip" when the transport asks, otherwise exactly the caller's value *)
+Theorem C14_accept_encoding_on_the_wire : forall st c,
+  sent_accept_encoding st c = if transport_asked c then bs "gzip" else q_ae c.
+Proof. exact sent_accept_encoding_spec. Qed.
+Print Assumptions C14_accept_encoding_on_the_wire.
+
+(* a response without a body on the wire (HEAD, Content-Length: 0 on HTTP/1, END_STREAM on the HEADERS
+   frame on HTTP/2) is never touched, whatever its headers say *)
+Theorem C14_bodiless_untouched : forall c auto ended r,
+  (q_head c = true \/ r_cl r = 0%Z -> respond H1 c auto ended r = r) /\
+  (q_head c = true \/ ended = true -> respond H2 c auto ended r = r).
+Proof. exact bodiless_untouched. Qed.
+Print Assumptions C14_bodiless_untouched.
+
 (* several Content-Encoding header lines are one list (RFC 9110 5.3; compress.ContentEncoding joins
    them, fix c31eb6d): such a response is returned as received, whatever the lines say *)
 Theorem C14_multi_line_is_a_list : forall st c auto ended r,
@@ -181,6 +195,20 @@ Theorem C14_interleaved_decoded_is_original :
 Proof. exact interleaved_decoded_is_original. Qed.
 Print Assumptions C14_interleaved_decoded_is_original.
 
+(* the allocation discipline of `sess_step` is what the source says (tables regenerated by gosync on
+   every run): no package-level variable in internal/compress, and each reader's decoder field is
+   assigned only in Read, only from the codec's constructor on the reader's own body *)
+Theorem C14_readers_allocate_their_own_decoder :
+  compress_pkg_vars = [] /\
+  filter is_decoder_field reader_field_assignments =
+  [ (bs "BrotliReader", bs "Read", bs "br", bs "brotli.NewReader(br.Body)");
+    (bs "DeflateReader", bs "Read", bs "dr", bs "flate.NewReader(df.Body)");
+    (bs "GzipReader", bs "Read", bs "zr", bs "gzip.NewReader(gz.Body)");
+    (bs "ZstdReader", bs "Read", bs "zr", bs "zstd.NewReader(zr.Body)");
+    (bs "gzipReader", bs "Read", bs "zr", bs "gzip.NewReader(gz.body)") ].
+Proof. exact readers_allocate. Qed.
+Print Assumptions C14_readers_allocate_their_own_decoder.
+
 (* the independence is a property of the allocation discipline, not of the way the model is written:
    the same session with decompressors recycled through a free list that a repeated Close feeds twice
    (the shape of a sync.Pool recycling bug) splices response 2's bytes into response 1 without an
@@ -204,6 +232,13 @@ Theorem C14_pinned_refuted :
   (forall st c, q_head c = false -> respond st c true false r_example = r_example).
 Proof. exact pinned_refuted. Qed.
 Print Assumptions C14_pinned_refuted.
+
+(* non-vacuity: the codec hypothesis of the theorems above is satisfiable *)
+Theorem C14_roundtrip_hypothesis_satisfiable :
+  exists (compress : enc -> bytes -> bytes) (dec : codec),
+    forall e p, dec e (compress e p) = {| s_data := p; s_end := EOF |}.
+Proof. exact roundtrip_satisfiable. Qed.
+Print Assumptions C14_roundtrip_hypothesis_satisfiable.
 
 (* non-vacuity: a concrete decoded exchange and a concrete untouched one *)
 Example C14_nonvacuous :
